@@ -5,6 +5,7 @@ import (
 	"math"
 	"strconv"
 	"strings"
+	"unicode/utf16"
 
 	dtpb "github.com/google/fhir/go/proto/google/fhir/proto/r4/core/datatypes_go_proto"
 	"github.com/shopspring/decimal"
@@ -53,23 +54,58 @@ type String string
 // ParseString parses the input string and replaces FHIRPath
 // escape sequences with their Go-equivalent escape characters.
 func ParseString(input string) (String, error) {
-	escSequences := []string{
-		"\\'", "'",
-		"\\\"", "\"",
-		"\\`", "`",
-		"\\r", "\r",
-		"\\t", "\t",
-		"\\n", "\n",
-		"\\f", "\f",
-		"\\\\", "\\",
-		"\\", "",
-		// TODO PHP-5581
-	}
 	input = strings.TrimPrefix(input, "'")
 	input = strings.TrimSuffix(input, "'")
-	replacer := strings.NewReplacer(escSequences...)
-	escapedString := replacer.Replace(input)
-	return String(escapedString), nil
+	var sb strings.Builder
+	for i := 0; i < len(input); i++ {
+		if input[i] != '\\' {
+			sb.WriteByte(input[i])
+			continue
+		}
+		i++ // the character after the backslash
+		if i == len(input) {
+			break // a lone trailing backslash is dropped
+		}
+		switch c := input[i]; c {
+		case 'r':
+			sb.WriteByte('\r')
+		case 't':
+			sb.WriteByte('\t')
+		case 'n':
+			sb.WriteByte('\n')
+		case 'f':
+			sb.WriteByte('\f')
+		case 'u':
+			// \uXXXX: a UTF-16 code unit, possibly the first half of a surrogate pair
+			if r, ok := parseUnicodeEscape(input[i+1:]); ok {
+				i += 4
+				if utf16.IsSurrogate(r) && strings.HasPrefix(input[i+1:], "\\u") {
+					if r2, ok := parseUnicodeEscape(input[i+3:]); ok && utf16.IsSurrogate(r2) {
+						r = utf16.DecodeRune(r, r2)
+						i += 6
+					}
+				}
+				sb.WriteRune(r)
+				continue
+			}
+			sb.WriteByte(c)
+		default:
+			sb.WriteByte(c) // \' \" \` \\ \/ denote the character itself
+		}
+	}
+	return String(sb.String()), nil
+}
+
+// parseUnicodeEscape parses the four hexadecimal digits of a \uXXXX escape.
+func parseUnicodeEscape(digits string) (rune, bool) {
+	if len(digits) < 4 {
+		return 0, false
+	}
+	code, err := strconv.ParseUint(digits[:4], 16, 16)
+	if err != nil {
+		return 0, false
+	}
+	return rune(code), true
 }
 
 // Equal returns true if the input value is a System String,
